@@ -96,11 +96,9 @@ where
         let call = &h.calls[*i];
         match (real, exp) {
             (Out::Ok(()), SetterExpect::Ok) => {},
-            (Out::Err(e), SetterExpect::Err(want)) => {
+            (Out::Err(_), SetterExpect::Err(_)) => {
+                // refused, as it must be; which error variant is not this property's business
                 j.setter_refused += 1;
-                if e != want {
-                    return (None, Some(Fail::tagged("setter-wrong-error", format!("{e} for {want}"), format!("call #{i} {call:?} returned Err({e}); expected Err({want})"))));
-                }
             },
             (Out::Ok(()), SetterExpect::Err(want)) => {
                 return (None, Some(Fail::tagged("setter-accepted-invalid", call_class(call), format!("call #{i} {call:?} returned Ok; the model says Err({want})"))));
@@ -125,11 +123,9 @@ where
         (Out::Err(e), Ok(_)) => {
             return (None, Some(Fail::tagged("build-refused-valid", e.clone(), format!("build() returned Err({e}) although the final state {m:?} is valid"))));
         },
-        (Out::Err(e), Err(errs)) => {
+        (Out::Err(_), Err(_)) => {
+            // refused, as it must be (the statement fixes success / failure, not the variant)
             j.refused = true;
-            if !errs.contains(e) {
-                return (None, Some(Fail::tagged("build-wrong-error", format!("{e} for {}", errs.join("|")), format!("build() returned Err({e}); the defects present in {m:?} are {errs:?}"))));
-            }
         },
         (Out::Ok(p), Ok(w)) => {
             j.ok = true;
